@@ -37,6 +37,22 @@ chk("C15",
     "bounded exhaustive enumeration of values against the conversion laws",
     "5/C15")
 
+chk("C04",
+    "Every token string of length<=3 (4 thorough) over each format's full token alphabet, every string at one deviation from ~150 well-formed token lists (with/without spaces; thorough adds truncation o edit), 512-char repetition and 64-deep bracket-tower families, through all 8 public enum parsing entry points x 3 formats on 2 MiB stacks with catch_unwind and a non-termination watchdog; plus the complete (len,index) grid of ParseError::new + Display.",
+    "Totality is decided for these string families and for every cursor position, not for every string of <=512 chars; an abort (stack overflow) would surface as machinery failure, not as a pass.",
+    "bounded exhaustive enumeration of token strings and deviation-bounded mutants against the real parser entry points",
+    "5/C04")
+chk("C05",
+    "The same string spaces as C04 through lexical parse and parse_term x 3 formats; every lexical value of a hostile universe (every keyword of every category of every format, empty and garbage strings in every field, 0..3/4 components, 14 number strings in lists of 0..4, 30 stamp strings) folded with each of the 3 enum formats, under catch_unwind and a watchdog.",
+    "As C04; hostile universe depth<=2.",
+    "bounded exhaustive enumeration of strings and hostile lexical values against the real lexical parser and fold",
+    "5/C05")
+chk("C12",
+    "Every Ok value the enum parser returns on the C04 string spaces, fold returns on the C05 hostile universe, and lexical parse + fold returns on the string spaces is checked for ranges, image index, non-empty names, (parser) non-empty compounds, then formatted in all 3 formats and rendered to Typst under catch_unwind.",
+    "Well-formedness read off public variants; '(/, _)' not counted as empty.",
+    "bounded exhaustive enumeration of accepted inputs with a well-formedness invariant on every accepted value",
+    "5/C12")
+
 ALL = ["C%02d" % i for i in range(1, 18)]
 NOT_YET = {}
 manifest = {
